@@ -259,7 +259,7 @@ identical result across segmentations and reader styles (all bodies), never Err.
     }
 
     fn cases_per_worker(tier: Tier) -> u32 {
-        tier.pick(2500, 20_000)
+        tier.pick(2500, 60_000)
     }
 
     fn strategy(_tier: Tier) -> BoxedStrategy<Case> {
